@@ -63,16 +63,19 @@ func (c Config) Label() string {
 	return strings.Join(p, "+")
 }
 
-// Features names the performance features that are active in the
-// configuration: the peephole optimizer (levels 1 and 2), registers and
-// constant folding (switched on, or forced on by level 3), the global cache,
-// a non-default symbol allocation.
+// Features names the performance feature a difference under this
+// configuration is attributed to. The peephole optimizer (levels 1 and 2)
+// rewrites whatever bytecode the other features produce, so when it is active
+// it is named alone; otherwise registers and constant folding (switched on,
+// or forced on by level 3), the global cache, a non-default symbol
+// allocation. (Differences that already show with fewer features active are
+// attributed there before this label is used.)
 func (c Config) Features() string {
-	var p []string
-
 	if c.Opt == 1 || c.Opt == 2 {
-		p = append(p, "peephole")
+		return "peephole"
 	}
+
+	var p []string
 
 	if c.Reg == 1 || c.Opt == 3 {
 		p = append(p, "registers")
@@ -185,7 +188,7 @@ func (c Config) Args(mode, file, aux string) []string {
 }
 
 // TestArgs is the `ego test` command line for the corpus.
-func (c Config) TestArgs(mode, path string) []string {
+func (c Config) TestArgs(mode string, paths ...string) []string {
 	var a []string
 
 	a = append(a, setting("ego.compiler.registers", c.Reg)...)
@@ -206,7 +209,7 @@ func (c Config) TestArgs(mode, path string) []string {
 		a = append(a, "--debug")
 	}
 
-	return append(a, path)
+	return append(a, paths...)
 }
 
 // Raw is what one execution produced.
